@@ -45,6 +45,9 @@ pub enum Mutation {
 	ReplaceProof { seed: [u8; 32] },
 	ReplaceOutput { seed: [u8; 32], value: u64 },
 	AddInput { seed: [u8; 32], value: u64 },
+	/// the replier adds an output of value 0 and compensates its blinding factor in the offset: the transaction still
+	/// balances and every signature still verifies, but it is heavier than what the agreed fee pays for
+	AddZeroValueOutput { seed: [u8; 32] },
 	/// signature recomputed by an attacker who does not know the replier's key, over a slate with another fee
 	PartSigFlip(u8),
 }
@@ -58,6 +61,9 @@ pub struct Case {
 	pub args: SendArgs,
 	pub mutation: Mutation,
 	pub acct: u8,
+	/// after a refused altered reply, deliver the genuine reply instead of cancelling
+	#[serde(default)]
+	pub retry_honest: bool,
 }
 
 fn b32() -> impl Strategy<Value = [u8; 32]> {
@@ -87,6 +93,7 @@ fn mutation_strategy() -> BoxedStrategy<Mutation> {
 		2 => b32().prop_map(|seed| Mutation::ReplaceProof { seed }),
 		2 => (b32(), 1u64..100_000_000_000).prop_map(|(seed, value)| Mutation::ReplaceOutput { seed, value }),
 		1 => (b32(), 1u64..100_000_000_000).prop_map(|(seed, value)| Mutation::AddInput { seed, value }),
+		3 => b32().prop_map(|seed| Mutation::AddZeroValueOutput { seed }),
 		2 => any::<u8>().prop_map(Mutation::PartSigFlip),
 	]
 	.boxed()
@@ -274,6 +281,26 @@ fn mutate(reply: &mut Slate, m: &Mutation, other_pending: Option<uuid::Uuid>) ->
 			}
 			None => return false,
 		},
+		Mutation::AddZeroValueOutput { seed } => match reply.tx.as_mut() {
+			Some(tx) => {
+				let kc = throwaway_keychain(seed);
+				let kid = ExtKeychain::derive_key_id(3, 1, 2, 3, 0);
+				let blind = match kc.derive_key(0, &kid, SwitchCommitmentType::Regular) {
+					Ok(b) => b,
+					Err(_) => return false,
+				};
+				*tx = tx.clone().with_output(build_output(seed, 0));
+				let sum = grin_keychain::BlindSum::new()
+					.add_blinding_factor(reply.offset.clone())
+					.add_blinding_factor(BlindingFactor::from_secret_key(blind));
+				reply.offset = match kc.blind_sum(&sum) {
+					Ok(o) => o,
+					Err(_) => return false,
+				};
+				tx.offset = reply.offset.clone();
+			}
+			None => return false,
+		},
 		Mutation::PartSigFlip(b) => match ridx {
 			Some(i) => {
 				let sig = reply.participant_data[i].part_sig.unwrap();
@@ -334,14 +361,16 @@ impl Prop for C02 {
 			send_args_strategy(false, false, true, true),
 			mutation_strategy(),
 			prop_oneof![3 => Just(0u8), 1 => Just(1u8)],
+			prop::bool::weighted(0.4),
 		)
-			.prop_map(|(base, pre, flow, args, mutation, acct)| Case {
+			.prop_map(|(base, pre, flow, args, mutation, acct, retry_honest)| Case {
 				base,
 				pre,
 				flow,
 				args,
 				mutation,
 				acct,
+				retry_honest,
 			})
 			.boxed()
 	}
@@ -504,6 +533,53 @@ impl C02 {
 					}
 				} else {
 					out.nontrivial = true;
+				}
+				if !honest && c.retry_honest && !matches!(mutation, Mutation::IdRandom(_) | Mutation::IdOtherPending) {
+					// the genuine reply arrives after the altered one was refused: it must finalize (standard and invoice
+					// flows; a late-locked send may lack funds) and all facts must hold for the transaction returned
+					let genuine = wire(sim.slates[si].s2.as_ref().ok_or("no reply")?)?;
+					let res2: Result<Slate, String> = sim.with_account(w, acct, |sim| {
+						if flow == 4 {
+							sim.w(w).foreign().finalize_tx(&genuine, false).map_err(|e| e.to_string())
+						} else {
+							sim.w(w).owner.finalize_tx(sim.w(w).m(), &genuine).map_err(|e| e.to_string())
+						}
+					});
+					match res2 {
+						Ok(s3) => {
+							out.class("retry-honest:ok");
+							let s = &mut sim.slates[si];
+							s.tx = s3.tx.clone();
+							s.s3 = Some(s3.clone());
+							s.stage = Stage::Finalized;
+							s.locked = true;
+							// exactly one live sent entry for the slate on the sender side
+							if flow != 4 {
+								let v = snap::view(sim.w(w));
+								let n = v.txs.iter().filter(|t| t.tx_slate_id == Some(id) && t.tx_type == TxLogEntryType::TxSent).count();
+								if n != 1 {
+									out.fail("c02:retry:sent-entries", format!("{} TxSent entries for the slate after refused + genuine finalize", n));
+								}
+							}
+							// for a late-locked send the context read before the first attempt has no inputs yet
+							let ctx_opt = if flow == 1 { None } else { Some(&ctx) };
+							self.judge_ok(&mut sim, w, si, &s3, &kc, true, Some(agreed_fee), ctx_opt, out)?;
+						}
+						Err(e2) => {
+							out.class("retry-honest:err");
+							let acceptable_late = flow == 1;
+							if !acceptable_late && !e2.contains("Expired") {
+								out.fail("c02:honest-finalize-failed-after-refused-reply", format!("genuine reply refused after an altered one had been refused ({}): {}", e, e2));
+							}
+						}
+					}
+					if !out.fails.is_empty() {
+						let hist = sim.history();
+						for f in out.fails.iter_mut() {
+							f.detail = format!("{}\n--- flow {} mutation {:?} then genuine reply; args {:?} ---\n{}", f.detail, flow, mutation, args, hist);
+						}
+					}
+					return Ok(());
 				}
 				// the pending transaction can still be cancelled, and its inputs come back
 				let v = snap::view(sim.w(w));
